@@ -1088,6 +1088,7 @@ def _ray_geom_mesh_bvh(
 def _ray_bvh(
   # Model:
   ngeom: int,
+  nflexgeom: int,
   body_weldid: wp.array[int],
   geom_type: wp.array[int],
   geom_bodyid: wp.array[int],
@@ -1130,7 +1131,10 @@ def _ray_bvh(
   bounds_nr = int(0)
 
   while wp.bvh_query_next(query, bounds_nr, min_dist):
-    bvh_local = bounds_nr - (worldid * ngeom)
+    # each world owns ngeom geom boxes followed by nflexgeom flex boxes; rays are cast against geoms only
+    bvh_local = bounds_nr - (worldid * (ngeom + nflexgeom))
+    if bvh_local >= ngeom:
+      continue
     geomid = enabled_geom_ids[bvh_local]
 
     dist, normal = _ray_geom_mesh_bvh(
@@ -1305,6 +1309,7 @@ def rays(
       dim=(d.nworld, pnt.shape[1]),
       inputs=[
         rc.bvh_ngeom,
+        rc.bvh_nflexgeom,
         m.body_weldid,
         m.geom_type,
         m.geom_bodyid,
